@@ -15,6 +15,7 @@ ENABLED_FEATURES = {'gzip', 'deflate', 'zstd', 'server', 'channel', 'router', 'p
                     'transport', 'tls-ring', 'tls-aws-lc', '_tls-any'}
 
 
+import json
 import threading
 TLS = threading.local()   # TLS.isolate = (fn display name, clause label or '__safety__'): clause isolation (DESIGN 2.1)
 
@@ -844,6 +845,8 @@ class Unit:
         self.functions = []       # evidence: functions under contract
         self.rewrites = []
         self.lost = []
+        self.notes = []
+        self.closure_sigs = {}
         self.trusted = []         # A- ids
         self.vacuity_fns = []
         self.expected_fail = set()
@@ -981,7 +984,22 @@ class Unit:
             # a loop the unit has no invariant for (e.g. introduced by an edit of /repo): a failing obligation of this
             # function may just be the missing invariant -> undecided, never an alarm
             body.lost.append('loop without a registered invariant (%d loops, %d specs)' % (n_loops, len(loops or {})))
-        for k, spec in (closures or {}).items():
+        # closure contracts are keyed by ordinal.  Guard against a shifted ordinal (a closure removed / added by an edit of
+        # /repo): the parameter list of every contracted closure must be the one recorded on the reference tree.  A contract
+        # whose closure no longer exists at the END of the list is dropped (nothing to attach it to; harmless), any other
+        # mismatch makes failures of this function undecided.
+        now_params = closure_params(body.t)
+        self.closure_sigs[disp] = now_params
+        base_params = base_closures().get(self.name, {}).get(disp)
+        for k, spec in sorted((closures or {}).items()):
+            if base_params is not None and k < len(base_params):
+                if k >= len(now_params):
+                    if all(j >= len(now_params) or now_params[j] == base_params[j] for j in (closures or {}) if j < len(base_params)):
+                        self.notes.append('%s: closure #%d of the reference tree no longer exists; its contract is dropped' % (disp, k))
+                        continue
+                elif now_params[k] != base_params[k]:
+                    body.lost.append('closure #%d has another parameter list than on the reference tree (%s vs %s): ordinals may have shifted' % (k, now_params[k], base_params[k]))
+                    continue
             _closure_contract(body, k, spec)
         for k, spec in sorted((loops or {}).items(), reverse=True):
             body.loop_spec(k, _loop_text(spec), iter_name=(spec.get('iter') if isinstance(spec, dict) else None))
@@ -1151,6 +1169,46 @@ def _loop_text(spec):
             for c in spec[key]:
                 out.append('                ' + c.strip().rstrip(',') + ',')
     return '\n'.join(out)
+
+
+def closure_starts(t):
+    """(start, end-of-parameter-list) of every closure in t, in source order"""
+    code = code_mask(t)
+    starts = []
+    i = 0
+    while i < len(t):
+        if code[i] and t[i] == '|':
+            j = i - 1
+            while j >= 0 and t[j].isspace():
+                j -= 1
+            prev = t[j] if j >= 0 else '('
+            word = re.search(r'(\w+)\s*$', t[:i])
+            if prev in '(,=' or (word and word.group(1) in ('move', 'return')):
+                close = i + 1 if t[i + 1] == '|' else t.find('|', i + 1)
+                starts.append((i, close))
+                i = close + 1
+                continue
+        i += 1
+    return starts
+
+
+def closure_params(t):
+    return [norm_ws(t[a:b + 1]) for a, b in closure_starts(t)]
+
+
+_BASE_CLOSURES = None
+
+
+def base_closures():
+    """parameter lists of the closures of each function on the reference tree (recorded by --rebaseline)"""
+    global _BASE_CLOSURES
+    if _BASE_CLOSURES is None:
+        p = os.path.join(os.path.dirname(os.path.abspath(__file__)), 'baseline_obligations.json')
+        try:
+            _BASE_CLOSURES = json.load(open(p)).get('__closures__', {})
+        except Exception:
+            _BASE_CLOSURES = {}
+    return _BASE_CLOSURES
 
 
 def _closure_contract(body: Text, k, spec):
